@@ -164,6 +164,56 @@ def work_after_backward(chunk):
     return col
 
 
+def work_deep(chunk):
+    """long and wide networks (depth beyond the interpreter's recursion limit, many stand-alone tasks): initialize, tick, progress, update"""
+    col = engines.Collector()
+    for n, shape, order in chunk:
+        if shape == "chain":
+            links = [[i, i + 1, "FS"] for i in range(n - 1)]
+        elif shape == "chain+loose":
+            k = n - 3  # a chain through all but three stand-alone tasks
+            links = [[i, i + 1, "FS"] for i in range(k - 1)]
+        else:  # comb: a backbone with a one-task tooth at every node
+            h = n // 2
+            links = [[i, i + 1, "FS"] for i in range(h - 1)] + [[i, h + i, "FS"] for i in range(h)]
+        rem = [float(1 + (i % 3)) for i in range(n)]
+        sp = {"tasks": [{"name": F.tname(i), "work": rem[i]} for i in range(n)], "links": links}
+        if order == "reversed":
+            sp["order"] = list(range(n))[::-1]
+        key = hash((n, shape, order))
+        try:
+            m = S.build(sp)
+            wf = m.project.workflow
+            wf.initialize()
+            tasks = m.tasks
+            bad = compare(tasks, wf, n, links, 0, "deep-init")
+            if not bad:
+                tasks[0].remaining_work_amount = 0.0
+                tasks[n // 2].remaining_work_amount += 1.0
+                wf.update_PERT_data(3)
+                bad = compare(tasks, wf, n, links, 3, "deep-update")
+        except Exception as e:
+            col.violation({"property": "C12", "sig": "C12:pert-raised:%s" % type(e).__name__, "kind": "deep", "n": n, "shape": shape, "order": order, "detail": {"error": repr(e)[:300]}})
+            col.evaluations += 1
+            continue
+        col.evaluations += 2
+        col.checks["c12.deep"] += 1
+        col.states.add(key)
+        col.transitions.add(key)
+        col.nontrivial.add(key)
+        if bad:
+            col.violation({"property": "C12", "sig": sig_of(bad) + "@large-network", "kind": "deep", "n": n, "shape": shape, "order": order, "detail": {"mismatches": bad[:6]}})
+    return col
+
+
+def deep_items(tier):
+    sizes = (1100,) if tier == "quick" else (1100, 2300)
+    out = [(n, "chain", o) for n in sizes for o in ("natural", "reversed")]
+    out += [(n, "comb", "natural") for n in sizes]
+    out += [(n, sh, "natural") for n in (5, 6, 7, 9, 12) for sh in ("chain+loose",)]
+    return out
+
+
 def hist_items(tier):
     out = []
     if tier == "quick":
@@ -223,6 +273,7 @@ def run(tier, seed):
             for flag in (False, True):
                 ab.append((sp, flag))
     col.merge(engines.fanout(ab, work_after_backward, seed=seed))
+    col.merge(engines.fanout(deep_items(tier), work_deep, seed=seed, chunks_per_proc=1))
     si = sim_items(tier)
     H, D = (4, 1) if tier == "quick" else (5, 2)
     col.merge(stepcheck.explore(si, [mon_c12], H, D, who_fn=lambda sp: stepcheck.default_who(sp, facilities=False), seed=seed))
@@ -231,7 +282,7 @@ def run(tier, seed):
         "rule": "breadth-first search over histories of progress(i) (remaining -= 1) and tick (t += 1), each followed by the real update_PERT_data(t), from a freshly "
         "initialized real workflow, for every FS-only DAG on <=4 (thorough 5) nodes x every initial remaining vector over {0,1,2}, with the tasks' hash ranks in list order and (shallower) in reversed order so that the sets inside the passes are iterated both ways; states de-duplicated on (remaining, stored "
         "est/eft/lst/lft relative to t); after every update all values are compared with a longest-path CPM; plus the 'updated' phase of every step of FS-only simulations "
-        "explored over absence answers; non-trivial = distinct states of DAGs with at least one link and positive work",
+        "explored over absence answers; plus chains and combs of 1100 (thorough 2300) tasks, in natural and reversed list order, and chains next to three stand-alone tasks; non-trivial = distinct states of DAGs with at least one link and positive work",
         "bounds": {"history_depth": "4 (n<=3), 3 (n=4)" if tier == "quick" else "5 (n<=3), 4 (n=4), 3 (n=5)", "dag_instances": len(hi), "sim_models": len(si), "H": H, "D": D},
         "assumptions": ["finish-to-start networks only (the statement's scope)"],
     }
@@ -242,6 +293,8 @@ def replay(v):
     if v.get("kind") == "hist":
         m, t, bad = apply_history(v["n"], [tuple(l) for l in v["links"]], tuple(v["rem0"]), tuple(tuple(o) for o in v["hist"]), v.get("rev"))
         return [{"sig": sig_of(bad), "detail": {"t": t, "mismatches": bad[:8]}}] if bad else []
+    if v.get("kind") == "deep":
+        return work_deep([(v["n"], v["shape"], v["order"])]).violations
     if v.get("kind") == "afterback":
         return work_after_backward([(v["spec"], v["due"])]).violations
     return stepcheck.replay(v, [mon_c12])
